@@ -118,4 +118,31 @@ def AllOkC.dec (env : Env) : (s : St) → (ops : List Op) → Decidable (AllOkC 
       (sameBound op op' = true ∧ OpOk s op' ∧ AllOkC env (apply env (apply env s op).1 op').1 ops)))
 instance (env : Env) (s : St) (ops : List Op) : Decidable (AllOkC env s ops) := AllOkC.dec env s ops
 
+/-- Hypothesis on `other = this.copy()` (open finding D09f): the copy gets the class-default
+    piece size bounds, so the copied piece length must lie within them; and — for the invariant
+    `Inv`, whose stamp clause ties hashes to the object's own content path — the source carries
+    no hashes (a copy of a hashed torrent is a *detached* object: hashes without a content path,
+    like a torrent read from a file; it is judged by `C09_copy_carries` and the discard theorems). -/
+def CopyOk (s : St) : Prop :=
+  s.pieces = none ∧ (match s.pl with | none => True | some pl => defaultMin ≤ pl ∧ pl ≤ defaultMax)
+instance (s : St) : Decidable (CopyOk s) := by unfold CopyOk; split <;> infer_instance
+
+def OpOk2 (w : St2) : Op2 → Prop
+  | .on false op => OpOk w.a op
+  | .on true op => OpOk w.b op
+  | .copy false => CopyOk w.a
+  | .copy true => CopyOk w.b
+instance (w : St2) (op : Op2) : Decidable (OpOk2 w op) := by unfold OpOk2; split <;> infer_instance
+
+def AllOk2 (env : Env) : St2 → List Op2 → Prop
+  | _, [] => True
+  | w, op :: ops => OpOk2 w op ∧ AllOk2 env (apply2 env w op).1 ops
+
+def AllOk2.dec (env : Env) : (w : St2) → (ops : List Op2) → Decidable (AllOk2 env w ops)
+  | _, [] => isTrue True.intro
+  | w, op :: ops =>
+    have := AllOk2.dec env (apply2 env w op).1 ops
+    inferInstanceAs (Decidable (OpOk2 w op ∧ AllOk2 env (apply2 env w op).1 ops))
+instance (env : Env) (w : St2) (ops : List Op2) : Decidable (AllOk2 env w ops) := AllOk2.dec env w ops
+
 end Torf.Attrs
